@@ -106,4 +106,6 @@ def run(ctx):
     profile.check(ctx, rep, 'R01.P', ['creg_start', 'creg_finish', 'sreg_start', 'clog_start', 'clog_finish', 'slog_start', 'slog_finish'])
     from rules import lclone
     lclone.check(ctx, rep, 'R01.C')
+    from rules import lparams
+    lparams.check(ctx, rep, 'R01.N')
     return rep
